@@ -261,4 +261,20 @@ PROPS = {
         ],
         "exhaustive_thorough": False,
     },
+    "C11": {
+        "manifest": {
+            "text": "generated scenarios (sync, upload, checkpoint, compaction, snapshot, retention, restore, restart after losing the local state) executed by a child process under a ptrace tracer; over the recorded syscall trace: a file renamed to a final name was fsynced after its last write (P1), its directory is fsynced before success is written to stdout (P2), and an LTX file is unlinked only after a superseding file is durable by the trace's own accounting (P3)",
+            "note": "process-level syscall ordering on the file systems present (no block-level reordering model); files existing before a traced session are assumed durable; the tracer is part of /verif, no hook in /repo",
+            "technique": "property-based testing (rapid) of generated scenarios with a trace-invariant oracle over ptrace-recorded system calls",
+        },
+        "binary": "props",
+        "level": "exploration",
+        "rule": ("scenarios of 4-10 litestream commands with 1-2 application writes between them (commands: sync, syncwait, rsync, checkpoint x4 modes, compact, "
+                 "snapshot, retention x3, restore), optionally followed by a restart with the meta directory removed; every rename to a final name and every "
+                 "unlink of an LTX file in the trace is one evaluation. Non-trivial = the trace contains a checked rename and reached a success ACK; distinct = hash of the scenario."),
+        "assumptions": ["x86_64 Linux ptrace", "lsdriver executes one command at a time on one goroutine"],
+        "runs": [
+            {"name": "scenarios", "test": "TestProp_C11", "kind": "rapid", "checks_quick": 150, "checks_thorough": 3000, "shards": 8},
+        ],
+    },
 }
